@@ -218,7 +218,26 @@ def run(ctx):
     pis = function_named(qp, 'prepare_integration_select')
     ctx.need(pis is not None, 'prepare_integration_select not found')
     cbs = [n for n in pis.body if isinstance(n, ast.FunctionDef)]
-    ctx.need(len(cbs) >= 1, 'prepare_integration_select: callback not found')
+    methods_ = {m.name: m for m in qp.body if isinstance(m, ast.FunctionDef)}
+    # the callback may also be a method of the planner with its leading arguments bound: functools.partial(self._m, database) / self._m
+    bound_cbs = []          # (method, name of its node parameter, text of the callback expression)
+    for c_ in [n for n in walk_no_nested(pis) if isinstance(n, ast.Call) and dotted(n.func) == 'query_traversal' and len(n.args) > 1]:
+        e_ = c_.args[1]
+        nbound = 0
+        if isinstance(e_, ast.Call) and (dotted(e_.func) or '').split('.')[-1] == 'partial' and e_.args:
+            nbound = len(e_.args) - 1
+            target = e_.args[0]
+        else:
+            target = e_
+        if isinstance(target, ast.Attribute) and isinstance(target.value, ast.Name) and target.value.id in ('self', 'cls') and target.attr in methods_:
+            m_ = methods_[target.attr]
+            decos_ = {norm(d) for d in m_.decorator_list}
+            params_ = [a.arg for a in m_.args.args]
+            if 'staticmethod' not in decos_:
+                params_ = params_[1:]
+            if nbound < len(params_):
+                bound_cbs.append((m_, params_[nbound], norm(e_)))
+    ctx.need(len(cbs) + len(bound_cbs) >= 1, 'prepare_integration_select: callback not found')
     trav = [n for n in walk_no_nested(pis) if isinstance(n, ast.Call) and dotted(n.func) == 'query_traversal']
     ctx.need(len(trav) >= 1, 'prepare_integration_select: query_traversal call not found')
     qparam = pis.args.args[2].arg
@@ -265,11 +284,18 @@ def run(ctx):
                 for i_, a_ in enumerate(n.args):
                     if isinstance(a_, ast.Name) and a_.id == node and i_ < len(callee.args.args):
                         out += writes_of(callee, callee.args.args[i_].arg, seen | {n.func.id})
+            # ... and in the methods of the planner it hands the node to (self._m(node) / cls._m(node, ...))
+            if isinstance(n, ast.Call) and isinstance(n.func, ast.Attribute) and isinstance(n.func.value, ast.Name) and n.func.value.id in ('self', 'cls') \
+                    and n.func.attr in methods_ and n.func.attr not in seen:
+                callee = methods_[n.func.attr]
+                cps = [a.arg for a in callee.args.args]
+                if 'staticmethod' not in {norm(d) for d in callee.decorator_list}:
+                    cps = cps[1:]
+                for i_, a_ in enumerate(n.args):
+                    if isinstance(a_, ast.Name) and a_.id == node and i_ < len(cps):
+                        out += writes_of(callee, cps[i_], seen | {n.func.attr})
         return out
-    for cb in cbs:
-        if cb.name not in used_cb:
-            continue
-        node = cb.args.args[0].arg
+    for cb, node in [(cb, cb.args.args[0].arg) for cb in cbs if cb.name in used_cb] + [(m_, pn_) for m_, pn_, _txt in bound_cbs]:
         for n, txt in writes_of(cb, node, frozenset()):
             nw += 1
             if txt == 'NODE.parts' and isinstance(n, ast.Call) and n.func.attr == 'pop':
